@@ -207,6 +207,16 @@ def install():
     tp = types.ModuleType('threading_proxy_for_replicat_repository')
     tp.__dict__.update(_threading.__dict__)
     tp.Lock = DelayLock
+
+    class DelayEvent(_threading.Event):
+        def set(self):
+            Delays.point('event.set')
+            return super().set()
+
+        def is_set(self):
+            Delays.point('event.is_set')
+            return super().is_set()
+    tp.Event = DelayEvent
     R.threading = tp
 
     class DelayQueue(_queue.Queue):
@@ -219,6 +229,13 @@ def install():
         def get_nowait(self):
             Delays.point('queue.get')
             return super().get_nowait()
+
+        def empty(self):
+            # a pre-emption point between this answer and whatever the caller looks at next
+            r = super().empty()
+            if r:
+                Delays.point('queue.empty')
+            return r
 
     qp = types.ModuleType('queue_proxy_for_replicat_repository')
     qp.__dict__.update(_queue.__dict__)
